@@ -234,7 +234,8 @@ def _transform_tree(kind, tree):
     return tree
 
 
-GLOBAL_BENIGN = ("reformat", "rename-locals", "invert-if", "range-aug", "temporaries", "keyword-args", "negated-compare")
+GLOBAL_BENIGN = ("reformat", "rename-locals", "invert-if", "range-aug", "temporaries", "keyword-args", "negated-compare", "all-composed")
+COMPOSED = ("keyword-args", "negated-compare", "invert-if", "range-aug", "temporaries", "rename-locals")
 
 
 def run_global_benign(args):
@@ -250,7 +251,7 @@ def run_global_benign(args):
         src = os.path.join(repo_root, PACKAGE)
         dst = os.path.join(d, PACKAGE)
         shutil.copytree(src, dst, ignore=shutil.ignore_patterns("tests", "__pycache__", "*.pyc"))
-        if kind == "keyword-args":
+        if kind in ("keyword-args", "all-composed"):
             _PACKAGE_SIGS.clear()
             for f in os.listdir(dst):
                 if f.endswith(".py"):
@@ -264,7 +265,11 @@ def run_global_benign(args):
                 p = os.path.join(dst, f)
                 with open(p) as fh:
                     tree = ast.parse(fh.read())
-                tree = _transform_tree(kind, tree)
+                if kind == "all-composed":
+                    for k2 in COMPOSED:
+                        tree = ast.parse(ast.unparse(_transform_tree(k2, tree)))
+                else:
+                    tree = _transform_tree(kind, tree)
                 with open(p, "w") as fh:
                     fh.write(ast.unparse(tree) + "\n")
         repo = Repo(d)
